@@ -230,6 +230,12 @@ class VLoop(asyncio.BaseEventLoop):
                 fut.set_exception(ConnectionRefusedError("connection refused (harness)"))
             self.run_ready()
             return None
+        if how == "unreachable":
+            import errno
+
+            fut.set_exception(OSError(errno.ENETUNREACH, "Network is unreachable (harness)"))
+            self.run_ready()
+            return None
         raise ValueError(how)
 
     def idle(self):
